@@ -56,7 +56,7 @@ KINDS = ("int", "tup", "nest", "qubit")
 N_QUBITS = 8
 TYPES = {"int": "int", "tup": "tuple[int, bool]", "nest": "array[int, 2]", "qubit": "qubit"}
 
-EXCLUDE = {"unpack.starred_len0"}
+EXCLUDE = set()  # {"unpack.starred_len0"} until the defect was fixed in /repo (61da38c)
 if os.environ.get("C19_EXCLUDE") is not None:
     _e = os.environ["C19_EXCLUDE"].strip()
     EXCLUDE = set() if _e in ("", "none") else {x.strip() for x in _e.split(",")}
@@ -1097,8 +1097,8 @@ SPEC = harness.Spec(
                  "remainders are a toolchain gap and not generated",
                  "qubit arrays are observed in the computational basis only (X, CX, swap, reset on |0..0>)"],
     shards={"quick": 16, "thorough": 16},
-    budget_s={"quick": 150, "thorough": 1200},
-    params={"quick": {"n": 64, "clean_batch": 16, "select_set": 8}, "thorough": {"n": 800, "clean_batch": 16, "select_set": 8}},
+    budget_s={"quick": 180, "thorough": 1500},
+    params={"quick": {"n": 96, "clean_batch": 16, "select_set": 8}, "thorough": {"n": 800, "clean_batch": 16, "select_set": 8}},
     min_nontrivial=40,
 )
 
